@@ -4,7 +4,8 @@ CFG = dict(
     level_text="Theorems (all modes, all profiles, ALL answer scripts of ObjTool.Open / ObjFile.BuildID / ObjFile.SourceLine / the symbolz "
                "POST including an error at any call, all demanglers and URL classifiers): Symbolize never panics; the frame condition "
                "(samples, header, location ids/addresses/mapping refs, mapping ids/ranges/files/build ids untouched; existing functions keep "
-               "id/system name/file/start line, functions are only appended); mappings that carry function names and their locations are left "
+               "id/system name/file/start line, functions are only appended); line information is only attached (a location is untouched or ends "
+               "with >= 1 line); Has* flags are only raised; mappings that carry function names and their locations are left "
                "alone unless force is requested; demangling keeps non-empty names non-empty (for demanglers that do); the result passes "
                "CheckValid whenever the input did and the new function ids fit below 2^64; symbolz adjust detects every wrap-around; "
                "-symbolize=none does nothing; the evaluated checkers are sound for these relations. Model tied to the code by ~2,300 "
